@@ -100,7 +100,9 @@ class Simulation:
         if len(self.raw_args) > 0:
             return self.raw_args
 
-        # Compute new otherwise
+        # Compute new otherwise. The model is shared with the caller (e.g. a
+        # simulator that continues afterwards), so put its values back when done
+        current = dict(self.model.get_parameter_values())
         for res, p in zip(self.raw_variables, self.raw_parameters, strict=True):
             self.model.update_parameters(p)
             self.raw_args.append(
@@ -116,6 +118,7 @@ class Simulation:
                     include_readouts=True,
                 )
             )
+        self.model.update_parameters(current)
         return self.raw_args
 
     def _select_data(
@@ -422,13 +425,14 @@ class Simulation:
     ) -> pd.DataFrame | list[pd.DataFrame]:
         """Get right hand side over time."""
         args_by_simulation = self._compute_args()
+        current = dict(self.model.get_parameter_values())
+        rhs = [
+            self.model.update_parameters(p).get_right_hand_side_time_course(args=args)
+            for args, p in zip(args_by_simulation, self.raw_parameters, strict=True)
+        ]
+        self.model.update_parameters(current)
         return self._adjust_data(
-            [
-                self.model.update_parameters(p).get_right_hand_side_time_course(
-                    args=args
-                )
-                for args, p in zip(args_by_simulation, self.raw_parameters, strict=True)
-            ],
+            rhs,
             normalise=normalise,
             concatenated=concatenated,
         )
@@ -472,6 +476,7 @@ class Simulation:
         concatenated: bool = True,
     ) -> pd.DataFrame | list[pd.DataFrame]:
         """Get fluxes of variable with positive stoichiometry."""
+        current = dict(self.model.get_parameter_values())
         self.model.update_parameters(self.raw_parameters[0])
         names = [
             k
@@ -492,7 +497,7 @@ class Simulation:
                 for k in names:
                     v.loc[:, k] *= stoichs[k]
 
-        self.model.update_parameters(self.raw_parameters[-1])
+        self.model.update_parameters(current)
         if concatenated:
             return pd.concat(fluxes, axis=0)
         return fluxes
@@ -536,6 +541,7 @@ class Simulation:
         concatenated: bool = True,
     ) -> pd.DataFrame | list[pd.DataFrame]:
         """Get fluxes of variable with negative stoichiometry."""
+        current = dict(self.model.get_parameter_values())
         self.model.update_parameters(self.raw_parameters[0])
         names = [
             k
@@ -556,7 +562,7 @@ class Simulation:
                 for k in names:
                     v.loc[:, k] *= -stoichs[k]
 
-        self.model.update_parameters(self.raw_parameters[-1])
+        self.model.update_parameters(current)
         if concatenated:
             return pd.concat(fluxes, axis=0)
         return fluxes
